@@ -23,7 +23,7 @@ pub fn property() -> Property {
             Part {
                 name: "game_stream",
                 quick: 30_000,
-                thorough: 600_000,
+                thorough: 3_000_000,
                 single_shard: false, supplementary: false,
                 run: |cfg| run_part(cfg, (0..4u8, raw_doc()), |(k, r)| build_game_doc(*k, r), check_doc),
                 replay: |v| replay_case::<Doc, _>(v, check_doc),
@@ -31,7 +31,7 @@ pub fn property() -> Property {
             Part {
                 name: "event_stream",
                 quick: 20_000,
-                thorough: 400_000,
+                thorough: 2_000_000,
                 single_shard: false, supplementary: false,
                 run: |cfg| run_part(cfg, (0..5u8, raw_doc()), |(k, r)| build_event_doc(*k, r), check_doc),
                 replay: |v| replay_case::<Doc, _>(v, check_doc),
@@ -377,8 +377,11 @@ fn render(v: &Value, order: u64, out: &mut String) {
                 if i > 0 {
                     out.push(',');
                 }
-                out.push_str(&serde_json::to_string(k).unwrap());
+                out.push_str(&json_string(k, order / 7 + i as u64));
                 out.push(':');
+                if order % 11 == 3 {
+                    out.push(' ');
+                }
                 render(&m[k], order / 3 + 1, out);
             }
             out.push('}');
@@ -393,7 +396,51 @@ fn render(v: &Value, order: u64, out: &mut String) {
             }
             out.push(']');
         }
+        Value::String(t) => out.push_str(&json_string(t, order)),
         other => out.push_str(&serde_json::to_string(other).unwrap()),
+    }
+}
+
+/// one of several equivalent JSON spellings of a string: the standard one, `\/` for the solidus, \uXXXX escapes for
+/// every third ASCII letter or digit, \uXXXX (with surrogate pairs) for everything outside ASCII
+fn json_string(t: &str, mode: u64) -> String {
+    let std = serde_json::to_string(t).unwrap();
+    match mode % 8 {
+        1 => std.replace('/', "\\/"),
+        2 => {
+            let mut out = String::from("\"");
+            let mut n = 0;
+            for ch in t.chars() {
+                n += 1;
+                if ch.is_ascii_alphanumeric() && n % 3 == 0 {
+                    out.push_str(&format!("\\u{:04x}", ch as u32));
+                } else if ch == '/' {
+                    out.push_str("\\/");
+                } else {
+                    let one = serde_json::to_string(&ch.to_string()).unwrap();
+                    out.push_str(&one[1..one.len() - 1]);
+                }
+            }
+            out.push('"');
+            out
+        }
+        3 => {
+            let mut out = String::from("\"");
+            for ch in t.chars() {
+                if ch.is_ascii() {
+                    let one = serde_json::to_string(&ch.to_string()).unwrap();
+                    out.push_str(&one[1..one.len() - 1]);
+                } else {
+                    let mut buf = [0u16; 2];
+                    for u in ch.encode_utf16(&mut buf) {
+                        out.push_str(&format!("\\u{:04X}", u));
+                    }
+                }
+            }
+            out.push('"');
+            out
+        }
+        _ => std,
     }
 }
 
@@ -470,6 +517,31 @@ pub fn check_doc(d: &Doc, ctx: &mut Ctx) -> Result<(), String> {
             (BotGameState::GameState { state }, Some(mv)) => check_state(state, &d.document, mv).map_err(|e| format!("gameState: {e}; text: {}", d.text))?,
             (BotGameState::ChatLine { .. }, None) | (BotGameState::OpponentGone { .. }, None) => {}
             _ => return Err(format!("{kind} message decoded as a different kind of message; text: {}", d.text)),
+        }
+        // the next message of the same stream, decoded right afterwards on the same thread: the move string has grown —
+        // by whole moves, or (a different game / arbitrary well-formed texts) so that the OLD string ends in the middle of
+        // a token of the new one. Whatever a decoder remembers of the previous message, the list is the one transmitted.
+        if let Some(mv) = &d.moves {
+            if let Some(last) = mv.last().filter(|l| l.len() == 4) {
+                let mut next: Vec<String> = mv.clone();
+                let n = next.len();
+                next[n - 1] = format!("{last}q");
+                next.push("h8h7".to_string());
+                let mut doc2 = d.document.clone();
+                let slot = if doc2.get("state").is_some() { doc2.get_mut("state").unwrap() } else { &mut doc2 };
+                slot["moves"] = json!(next.join(" "));
+                let mut text2 = String::new();
+                render(&doc2, 0, &mut text2);
+                let msg2: BotGameState = serde_json::from_str(&text2).map_err(|e| format!("follow-up {kind} message does not decode: {e}; text: {text2}"))?;
+                let got = match &msg2 {
+                    BotGameState::GameFull { state, .. } | BotGameState::GameState { state } => state.moves.clone(),
+                    _ => vec![],
+                };
+                if got != next {
+                    return Err(format!("after decoding {} the follow-up message {text2} decodes its move list as {got:?}, transmitted {next:?}", d.text));
+                }
+                ctx.class("follow_up_message_whose_move_string_extends_the_previous_one_mid_token");
+            }
         }
         serde_json::to_value(&msg).map_err(|e| format!("HARNESS: cannot observe decoded message: {e}"))?
     } else {
